@@ -127,7 +127,9 @@ def coq_build():
 
 # ---------------------------------------------------------------- expander (K1)
 
-def expander_build():
+def expander_build(dest=None):
+    """builds both feature configurations against /repo's working tree; the binaries are copied into [dest] (the
+    run directory keyed by the source hashes) so that a cached stage never points at a later build"""
     src = os.path.join(VERIF, 'harness', 'expander')
     shutil.copy(os.path.join(REPO, 'Cargo.lock'), os.path.join(src, 'Cargo.lock'))
     bins = {}
@@ -139,7 +141,12 @@ def expander_build():
         rc, so, se = sh(cmd, cwd=src, env=dict(ENV, CARGO_TARGET_DIR=tgt), timeout=1800)
         if rc != 0:
             return {'ok': False, 'log': se[-6000:]}
-        bins[feat] = os.path.join(tgt, 'release', 'sm-expander')
+        built = os.path.join(tgt, 'release', 'sm-expander')
+        if dest:
+            keep = os.path.join(dest, 'sm-expander' + ('-dyn' if feat else ''))
+            shutil.copy(built, keep)
+            built = keep
+        bins[feat] = built
     return {'ok': True, 'bins': bins}
 
 
